@@ -11,9 +11,10 @@ import (
 )
 
 type Cell struct {
-	id   int
-	name string
-	typ  types.Type
+	id     int
+	name   string
+	typ    types.Type
+	global *ssa.Global // package-level variable (nil for locals)
 }
 
 type FnVal struct {
@@ -91,6 +92,7 @@ type lockHeld struct {
 }
 
 type State struct {
+	taint string // why whatever fails further down this path is undecided (a contract clause could not be applied on it)
 	cells    map[*Cell]Value
 	heap     map[string]Term
 	epoch    int
@@ -118,7 +120,7 @@ func (st *State) clone() *State {
 		heap:  make(map[string]Term, len(st.heap)),
 		epoch: st.epoch, now: st.now, panicking: st.panicking,
 		oldHeap: st.oldHeap, oldEpoch: st.oldEpoch, oldNow: st.oldNow,
-		constructing: st.constructing, nforks: st.nforks,
+		constructing: st.constructing, nforks: st.nforks, taint: st.taint,
 	}
 	if st.lockHavoc != nil {
 		n.lockHavoc = map[string][]Term{}
@@ -661,6 +663,7 @@ func (x *Exec) storeElem(st *State, elemT types.Type, arr, idx, v Term) {
 // freshRef allocates a new object reference.
 func (x *Exec) freshRef(st *State, hint string) Term {
 	r := x.decls.Fresh("new$"+hint, "Ref")
+	x.recFresh(r)
 	st.assume(Not(Eq(r, NullT)))
 	st.assume(Eq(App("atime", "Int", r), st.now))
 	st.now = Add(st.now, IntLit(1))
